@@ -31,8 +31,35 @@ class CMixin:
             return v
         t = base_ctype(ctype)
         if is_ptr_type(t):
-            if is_cint(v) and v == 0:
+            if (is_cint(v) and v == 0) or v is None:
                 return Ptr(None, 0)
+            if isinstance(v, Ptr) and v.oid is not None:
+                obj = st.heap[v.oid]
+                if isinstance(obj, ArrObj) and obj.kind == 'raw':
+                    # malloc'ed block receives its element type from the cast / declaration
+                    elem = t[:-1].strip()
+                    if elem in FLOAT_TYPES:
+                        kind, size = 'val', 8
+                    elif elem in ('idx_t', 'long', 'ssize_t', 'size_t', 'Py_ssize_t'):
+                        kind, size = 'int', 8
+                    elif elem == 'int':
+                        kind, size = 'int', 4
+                    elif elem in ('ba_t', 'unsigned char', 'char'):
+                        kind, size = 'int', 1
+                    elif elem == 'void':
+                        return v
+                    else:
+                        raise Unsupported('malloc of element type %s' % elem)
+                    nb = obj.length
+                    if is_cint(nb):
+                        n = nb // size
+                    else:
+                        n = z3.simplify(zint(nb) / size)
+                    o2 = obj.clone(kind=kind, length=n)
+                    o2.arr = fresh('heap_' + v.oid, z3.ArraySort(IntS, kind_sort(kind)))
+                    if self.mode == 'run' and is_cint(n):
+                        o2.items = [('uninit', 'heap')] * max(0, n)
+                    st.heap[v.oid] = o2
             return v
         if t in FLOAT_TYPES:
             if isinstance(v, Ptr):
@@ -81,8 +108,6 @@ class CMixin:
 
     # ------------------------------------------------------------------ statements
     def ex_CDecl(self, node, st):
-        if not hasattr(self.frame, 'ctypes'):
-            self.frame.ctypes = {}
         self.frame.ctypes[node.name] = node.ctype
         t = base_ctype(node.ctype)
         if node.init is not None:
@@ -104,7 +129,8 @@ class CMixin:
         for fname, ftype in sdef:
             fields[fname] = ('uninit', fname)
         if init is not None:
-            for fname, e in zip(init.fields, init.values):
+            names = init.fields or [f for f, _ in sdef]
+            for fname, e in zip(names, init.values):
                 fields[fname] = self.coerce_to_ctype(dict(sdef)[fname], self.ev(e, st), st, node)
         oid = st.new_oid('S')
         st.heap[oid] = RecObj(t, fields)
@@ -135,6 +161,10 @@ class CMixin:
 
     def unsupported(self, what):
         raise Unsupported(what)
+
+    def ev_CStmtExpr(self, node, st):
+        self.exec_block(node.body, st)
+        return None
 
     def ev_CSeq(self, node, st):
         v = None
@@ -226,7 +256,7 @@ class CMixin:
         self.oblige('bounds', z3.And(zint(pos) >= 0, zint(pos) < zint(obj.length)), st, node,
                     'read inside %s' % (obj.name or 'block'))
         if obj.kind == 'rows':
-            return self.row_ref(obj, pos, st)
+            return Ptr(self.row_ref(obj, pos, st).oid, 0)
         if obj.items is not None:
             return self.pick(obj.items, pos)
         return z3.Select(obj.arr, zint(pos))
@@ -281,8 +311,8 @@ class CMixin:
         raise Unsupported('pointer operator')
 
     def ptr_compare(self, op, a, b):
-        an = a.oid is None if isinstance(a, Ptr) else (is_cint(a) and a == 0)
-        bn = b.oid is None if isinstance(b, Ptr) else (is_cint(b) and b == 0)
+        an = a.oid is None if isinstance(a, Ptr) else (a is None or (is_cint(a) and a == 0))
+        bn = b.oid is None if isinstance(b, Ptr) else (b is None or (is_cint(b) and b == 0))
         if not isinstance(a, Ptr) or not isinstance(b, Ptr):
             # comparison with NULL / 0
             if op == '==':
